@@ -66,6 +66,7 @@ type ext struct {
 	recv    string
 	pkgvars map[string]bool
 	locals  map[string]bool
+	alias   map[string]string // local -> receiver-rooted path it was loaded from ("ExpectedCalls[]" for a range value)
 	m       *Method
 }
 
@@ -76,6 +77,10 @@ func (x *ext) recvPath(e ast.Expr) string {
 		if id, ok := t.X.(*ast.Ident); ok && id.Name == x.recv && x.recv != "" {
 			return t.Sel.Name
 		}
+		// a selector on a local that holds (an element of / a pointer to) receiver state: still that shared state
+		if id, ok := t.X.(*ast.Ident); ok && x.alias[id.Name] != "" {
+			return x.alias[id.Name] + "." + t.Sel.Name
+		}
 		if p := x.recvPath(t.X); p != "" {
 			return p + "." + t.Sel.Name
 		}
@@ -84,9 +89,37 @@ func (x *ext) recvPath(e ast.Expr) string {
 	case *ast.StarExpr:
 		return x.recvPath(t.X)
 	case *ast.IndexExpr:
+		if id, ok := t.X.(*ast.Ident); ok && x.alias[id.Name] != "" {
+			return x.alias[id.Name] + "[]"
+		}
 		return x.recvPath(t.X)
 	}
 	return ""
+}
+
+// setAlias: local name now holds what the receiver-rooted expression e denotes (elem: one element of it)
+func (x *ext) setAlias(name ast.Expr, e ast.Expr, elem bool) {
+	id, ok := name.(*ast.Ident)
+	if !ok || id.Name == "_" {
+		return
+	}
+	if u, ok := e.(*ast.UnaryExpr); ok && u.Op == token.AND {
+		e = u.X
+	}
+	p := x.recvPath(e)
+	if p == "" {
+		if rid, ok := e.(*ast.Ident); ok {
+			p = x.alias[rid.Name]
+		}
+	}
+	if p == "" {
+		delete(x.alias, id.Name)
+		return
+	}
+	if elem {
+		p += "[]"
+	}
+	x.alias[id.Name] = p
 }
 
 func (x *ext) emit(i Instr, n ast.Node) {
@@ -236,6 +269,9 @@ func (x *ext) stmt(s ast.Stmt) {
 					x.declare(t.Lhs[i])
 				}
 				x.write(t.Lhs[i], kind)
+				if (t.Tok == token.DEFINE || t.Tok == token.ASSIGN) && len(t.Lhs) == len(t.Rhs) {
+					x.setAlias(t.Lhs[i], r, false)
+				}
 			}
 		}
 		if len(t.Rhs) < len(t.Lhs) {
@@ -306,6 +342,9 @@ func (x *ext) stmt(s ast.Stmt) {
 				if r.Value != nil {
 					x.declare(r.Value)
 				}
+			}
+			if r.Value != nil {
+				x.setAlias(r.Value, r.X, true)
 			}
 			body = r.Body
 		}
@@ -395,7 +434,7 @@ func main() {
 				continue
 			}
 			m := &Method{Name: fd.Name.Name}
-			x := &ext{pkgvars: pkgvars, locals: map[string]bool{}, m: m}
+			x := &ext{pkgvars: pkgvars, locals: map[string]bool{}, alias: map[string]string{}, m: m}
 			if fd.Recv != nil && len(fd.Recv.List) == 1 {
 				rt := fd.Recv.List[0].Type
 				if st, ok := rt.(*ast.StarExpr); ok {
